@@ -8,11 +8,11 @@ OUT=/tmp/seed_${P}_out/$N; WT=/tmp/seed_$P
 cd $WT || exit 9
 git checkout -q -- . ; rm -f $DEMODIR/zz_demo_test.go
 git apply $OUT/patch.diff || { echo "SEED: patch does not apply in worktree"; exit 9; }
-go test -vet=off -count=1 $PKGS > /tmp/seed_t.log 2>&1; T1=$?
+go test -modfile=/tmp/seedtools/alt.mod -ldflags=-checklinkname=0 -vet=off -count=1 $PKGS > /tmp/seed_t.log 2>&1; T1=$?
 cp $OUT/demo_test.go $DEMODIR/zz_demo_test.go
-go test -vet=off -count=1 -run 'ZZ|Demo' ./$DEMODIR > /tmp/seed_d1.log 2>&1; D1=$?
+go test -modfile=/tmp/seedtools/alt.mod -ldflags=-checklinkname=0 -vet=off -count=1 -run 'ZZ|Demo' ./$DEMODIR > /tmp/seed_d1.log 2>&1; D1=$?
 git checkout -q -- .
-go test -vet=off -count=1 -run 'ZZ|Demo' ./$DEMODIR > /tmp/seed_d0.log 2>&1; D0=$?
+go test -modfile=/tmp/seedtools/alt.mod -ldflags=-checklinkname=0 -vet=off -count=1 -run 'ZZ|Demo' ./$DEMODIR > /tmp/seed_d0.log 2>&1; D0=$?
 rm -f $DEMODIR/zz_demo_test.go
 echo "SEED $P/$N: existing-tests-with-patch exit=$T1 (want 0); demo-with-patch exit=$D1 (want !=0); demo-without exit=$D0 (want 0)"
 cd /repo && git apply $OUT/patch.diff || { echo "SEED: patch does not apply to /repo"; exit 9; }
